@@ -5,7 +5,7 @@
     is the registry *after* the repair `fix: skip expired one-time key bundles`; the behaviour
     before the repair is [get_onetime_asis]. *)
 From Coq Require Import List NArith.
-From PV Require Import Model.KeyRegistry Proofs.KeyRegistry Oracle.C38.
+From PV Require Import Model.KeyRegistry Proofs.KeyRegistry Oracle.C38 Proofs.OracleC38.
 Import ListNotations.
 Local Open Scope N_scope.
 
@@ -50,3 +50,12 @@ Theorem C38_never_return_invalid_before_fix_refuted :
   ~ Forall2 answer_ok witness_ops (snd (run get_onetime_asis init witness_ops)).
 Proof. exact asis_refuted. Qed.
 Print Assumptions C38_never_return_invalid_before_fix_refuted.
+
+(** Soundness of the boolean oracle: accepted observations satisfy the per-answer demand
+    (accepted => valid then; returned => the implementation's own verify() succeeded and the
+    bundle is valid by the clock arithmetic). *)
+Theorem C38_oracle_sound :
+  forall pool ops os acc ret,
+    check_all pool acc ret ops os = true -> Forall2 (obs_ok pool) ops os.
+Proof. exact check_sound. Qed.
+Print Assumptions C38_oracle_sound.
